@@ -402,10 +402,121 @@ class W:
         calls = [f"t{u}([], [])", f"t{u}([Der{u}()], [Base{u}(), Der{u}()])", f"t{u}([], [Der{u}()])"]
         return src, calls
 
+    def t_nested_try_reassign(self):
+        """a local narrowed from a declared union is reassigned inside nested try statements; every handler /
+        finally clause / continuation observes it (binder try frames at every depth)"""
+        u = self.u()
+        r = self.r
+        depth = r.choice([2, 2, 3])
+        other, oval = r.choice([("int", "7"), ("str", "'s'"), ("None", "None")])
+        src = [f"class P{u}:", f"    def __init__(self, v: int) -> None:", f"        self.v = v",
+               f"def risky{u}(n: int) -> int:",
+               f"    if n == 1:", f"        raise ValueError('one')",
+               f"    if n == 2:", f"        raise KeyError('two')",
+               f"    if n == 3:", f"        raise IndexError('three')",
+               f"    return n",
+               f"def t{u}(n: int, o: Union[P{u}, int, str, None]) -> int:",
+               f"    x: Union[P{u}, int, str, None] = o",
+               f"    if not isinstance(x, P{u}):", f"        return -1",
+               f"    probe({self.p()}, x)"]
+        excs = ["ValueError", "KeyError", "IndexError"]
+        r.shuffle(excs)
+        ind = "    "
+        for d in range(depth):
+            src.append(f"{ind}try:")
+            ind += "    "
+            if r.random() < 0.4:
+                src.append(f"{ind}probe({self.p()}, x)")
+        # innermost body: leave the narrowed type, something may raise, come back
+        src += [f"{ind}x = {oval}", f"{ind}probe({self.p()}, x)", f"{ind}risky{u}(n)", f"{ind}x = P{u}(n)", f"{ind}probe({self.p()}, x.v)"]
+        for d in range(depth):
+            ind = ind[:-4]
+            exc = excs[d % 3]
+            if r.random() < 0.7 or d == depth - 1:
+                src += [f"{ind}except {exc}:", f"{ind}    probe({self.p()}, x)"]
+                k = r.random()
+                if k < 0.4:
+                    src.append(f"{ind}    return -2")
+                elif k < 0.7:
+                    src.append(f"{ind}    x = P{u}(0)")
+                if r.random() < 0.4:
+                    src += [f"{ind}finally:", f"{ind}    probe({self.p()}, x)"]
+            else:
+                src += [f"{ind}finally:", f"{ind}    probe({self.p()}, x)"]
+            src.append(f"{ind}probe({self.p()}, x)")
+        src += [f"    if isinstance(x, P{u}):", f"        return x.v", f"    probe({self.p()}, x)", f"    return 0"]
+        calls = [f"t{u}({n}, P{u}(5))" for n in (0, 1, 2, 3)] + [f"t{u}(0, None)"]
+        return src, calls
+
+    def t_boolop_subclass_falsy(self):
+        """`a or b` / `a and b` over subclass-related classes whose instances can be false, then a falsiness test of
+        the result (the simplified union must still admit false values)"""
+        u = self.u()
+        r = self.r
+        dunder = r.choice(["__bool__", "__len__"])
+        rt, expr = ("bool", "self.n > 0") if dunder == "__bool__" else ("int", "self.n")
+        src = [f"class Bk{u}:", f"    def __init__(self, n: int) -> None:", f"        self.n = n",
+               f"    def {dunder}(self) -> {rt}:", f"        return {expr}",
+               f"class Gf{u}(Bk{u}):", f"    def tag(self) -> str:", f"        return 'g'"]
+        ta, tb = r.choice([(f"Bk{u}", f"Gf{u}"), (f"Gf{u}", f"Bk{u}"), (f"Gf{u}", f"Gf{u}"), (f"Optional[Gf{u}]", f"Bk{u}"),
+                           (f"Bk{u}", f"Optional[Gf{u}]")])
+        op = r.choice(["or", "or", "and"])
+        src += [f"def t{u}(a: {ta}, b: {tb}) -> int:",
+                f"    w = a {op} b", f"    probe({self.p()}, w)"]
+        if r.random() < 0.5:
+            src += [f"    if not w:", f"        probe({self.p()}, w)", f"        return 0",
+                    f"    probe({self.p()}, w)", f"    return w.n"]
+        else:
+            src += [f"    if w:", f"        probe({self.p()}, w)", f"        return w.n",
+                    f"    else:", f"        probe({self.p()}, w)", f"    return 0"]
+        src += [f"def s{u}(a: {ta}, b: {tb}) -> int:",
+                f"    if not (a {op} b):", f"        probe({self.p()}, a)", f"        probe({self.p()}, b)", f"        return 0",
+                f"    v = (a {op} b) {'and' if op == 'or' else 'or'} a", f"    probe({self.p()}, v)",
+                f"    if v:", f"        return 1", f"    probe({self.p()}, v)", f"    return 2"]
+
+        def vals(t):
+            c = t.replace("Optional[", "").replace("]", "")
+            return [f"{c}(0)", f"{c}(2)"] + (["None"] if t.startswith("Optional") else []) + ([f"Gf{u}(0)"] if c.startswith("Bk") else [])
+        calls = [f"{f}{u}({x}, {y})" for f in ("t", "s") for x in vals(ta) for y in vals(tb)]
+        return src, calls
+
+    def t_truthiness_after_merge(self):
+        """truthiness narrowing of a local whose type comes out of a merge (branches, conditional expression, loop)"""
+        u = self.u()
+        r = self.r
+        dunder = r.choice(["__bool__", "__len__"])
+        rt, expr = ("bool", "self.n > 0") if dunder == "__bool__" else ("int", "self.n")
+        src = [f"class Bs{u}:", f"    def __init__(self, n: int) -> None:", f"        self.n = n",
+               f"class Fa{u}(Bs{u}):", f"    def {dunder}(self) -> {rt}:", f"        return {expr}",
+               f"def t{u}(c: int, o: Optional[Bs{u}]) -> int:",
+               f"    x: Optional[Bs{u}] = None"]
+        shape = r.choice(["ite", "cond", "loop", "try"])
+        if shape == "ite":
+            src += [f"    if c > 1:", f"        x = Fa{u}(c - 2)", f"    elif c > 0:", f"        x = Bs{u}(c)", f"    else:", f"        x = o"]
+        elif shape == "cond":
+            src += [f"    x = Fa{u}(c - 2) if c > 1 else o"]
+        elif shape == "loop":
+            src += [f"    i = 0", f"    while i < c:", f"        i += 1", f"        if x:", f"            probe({self.p()}, x)", f"            continue",
+                    f"        x = Fa{u}(i - 1) if i > 1 else o"]
+        else:
+            src += [f"    try:", f"        x = Fa{u}(c - 2)", f"        if c < 0:", f"            raise ValueError()", f"        x = o",
+                    f"    except ValueError:", f"        probe({self.p()}, x)"]
+        src.append(f"    probe({self.p()}, x)")
+        if r.random() < 0.5:
+            src += [f"    if x:", f"        probe({self.p()}, x)", f"        return x.n",
+                    f"    probe({self.p()}, x)", f"    if x is not None:", f"        probe({self.p()}, x)", f"        return -x.n", f"    return 0"]
+        else:
+            src += [f"    if not x:", f"        probe({self.p()}, x)", f"        if x is None:", f"            return 0",
+                    f"        probe({self.p()}, x)", f"        return -1",
+                    f"    probe({self.p()}, x)", f"    return x.n"]
+        calls = [f"t{u}({c}, {o})" for c in (-1, 0, 1, 2, 3) for o in ("None", f"Bs{u}(1)", f"Fa{u}(0)", f"Fa{u}(4)")]
+        return src, calls
+
     TEMPLATES = ["t_union_chain", "t_generic_first", "t_generic_class", "t_protocol", "t_dataclass", "t_enum", "t_tuple",
                  "t_containers", "t_callable", "t_overload", "t_typeddict_namedtuple", "t_property_classmethod",
                  "t_multiple_inheritance", "t_try_finally", "t_break_continue", "t_match", "t_walrus_truthiness",
-                 "t_equality_literal", "t_nested_optional_attr", "t_abstract_super", "t_generic_bound"]
+                 "t_equality_literal", "t_nested_optional_attr", "t_abstract_super", "t_generic_bound",
+                 "t_nested_try_reassign", "t_boolop_subclass_falsy", "t_truthiness_after_merge"]
 
     def module(self, k: int):
         names = [self.r.choice(self.TEMPLATES) for _ in range(k)]
